@@ -14,7 +14,8 @@
         "ID i I SAME|DIFF"                                         decisions of printing the re-read journal again
       or "ID i ORDER-DEPENDENT" for a transaction on which the two hash-table orders disagree.
    (equity ID (pool (SYMHEX PREC) ...) (acct ACCTHEX KIND (NUM DEN PREC KEYHEX) ...) ...)
-   -> "ID E ACCTHEX kind key:n/d;key:n/d" per account *)
+   -> "ID E ACCTHEX kind key:n/d;key:n/d" per account
+   (layout ID (NAMELEN AMTLEN CALCULATED) ...) -> "ID W width blanks ..." (Model/Print.v account_width, sep_blanks) *)
 let err_name = function
   | EUnbalanced -> "Unbalanced" | ETwoNulls -> "TwoNulls" | ENullLeft -> "NullLeft"
   | ECostSameComm -> "CostSameComm" | EDivZero -> "DivZero" | EDiffComm -> "DiffComm"
@@ -145,6 +146,13 @@ let handle line =
           let a = run false and b = run true in
           Printf.sprintf "%s E %s %s %s" id (atom acct) kind (if a = b then a else "ORDER-DEPENDENT")
         | _ -> failwith "acct") accts
+  | L (A "layout" :: A id :: posts) ->
+    (* (layout ID (NAMELEN AMTLEN CALCULATED) ...) -> "ID W width blanks blanks ..." : the account column and, per posting
+       line, the number of blanks print writes between the account name and what follows *)
+    let l = List.map (function L [n; a; c] -> (zatom n, zatom a, batom c) | _ -> failwith "layout") posts in
+    let w = account_width (List.map (fun (n, _, _) -> n) l) in
+    [Printf.sprintf "%s W %s %s" id (string_of_z w)
+       (String.concat " " (List.map (fun (n, a, c) -> string_of_z (posting_blanks c w n a)) l))]
   | _ -> failwith "case"
 
 let () = main_loop handle
